@@ -95,6 +95,16 @@ def unhx(l):
 
 
 def make_breaks(rng, kind, nc):
+    if kind == 'uniform-far':
+        # equidistant, exactly representable, many cell widths away from the origin, cell width not a power of two
+        dx = 3.0 * 2.0 ** -rng.randint(4, 7)
+        a = rng.choice([-1, 1]) * (2 * rng.randint(2 ** 20, 2 ** 24) + 1) * dx
+        return a + dx * np.arange(nc + 1)
+    if kind == 'nearly-uniform':
+        # NOT equidistant, but only by a relative 1e-6 .. 1e-9 of the cell width (graded), or of tiny absolute size
+        scale = rng.choice([1.0, 1.0, 1e-9])
+        w = np.array([1.0 + rng.choice([1e-6, 3e-7, 1e-8]) * k for k in range(nc)]) * rng.uniform(0.2, 1.0) * scale
+        return rng.uniform(-1, 1) * scale + np.concatenate([[0.0], np.cumsum(w)])
     if kind == 'uniform-dyadic':
         a = rng.randint(-16, 16) / 8.0
         dx = 2.0 ** rng.randint(-3, 1)
@@ -866,6 +876,19 @@ def run(chk):
                                         check_nu_kernels(chk, drv, g, rng, 2)
                                 else:
                                     check_nu_kernels(chk, drv, sp, rng, chk.n(2, 6))
+            # uniform cubic spaces far from the origin (the cell coordinate (x - xmin)/dx must not lose digits), and spaces that are
+            # nearly but not exactly equidistant and declared non-uniform (the general path is the only valid one)
+            for rep in range(chk.n(3, 12)):
+                for periodic in (False, True):
+                    sp = build(chk, 3, periodic, 'uniform-far', make_breaks(rng, 'uniform-far', rng.randint(4, 9)))
+                    if sp is not None:
+                        check_1d(chk, drv, sp, rng, chk.n(4, 10))
+                        if sp.cu:
+                            check_cu_kernels(chk, drv, sp, rng, chk.n(2, 6))
+                    d_ = 3 if rep % 2 == 0 else rng.randint(2, 5)
+                    sp = build(chk, d_, periodic, 'nearly-uniform', make_breaks(rng, 'nearly-uniform', rng.randint(max(d_, 4), 9)), uniform_flag=False)
+                    if sp is not None:
+                        check_1d(chk, drv, sp, rng, chk.n(4, 10))
             # smallest spaces (one cell clamped = Bezier; periodic with ncells = degree)
             for deg in range(1, 6):
                 for periodic in (False, True):
